@@ -160,6 +160,12 @@ func init() {
 			emacs := r.Intn(2) == 0
 			isearch := local && r.Intn(3) == 0
 			chunks := genKeys(r, seqs)
+			// one time in three the engine has already dispatched a key with ANOTHER bind table in the same keymap
+			// (an application that edits Config.Binds between two calls): the table in force is what counts
+			var warm map[string]inputrc.Bind
+			if r.Intn(3) == 0 {
+				warm, _ = genTable(r)
+			}
 			b := func(x bool) string {
 				if x {
 					return "1"
@@ -171,6 +177,9 @@ func init() {
 				line = fmt.Sprintf("local %s %s %s %s %s", b(emacs), b(isearch), strings.Join(dispRegs, ","), tableField(tbl), chunksField(chunks))
 			} else {
 				line = fmt.Sprintf("main %s %s %s %s", b(emacs), strings.Join(dispRegs[:5], ","), tableField(tbl), chunksField(chunks))
+			}
+			if warm != nil {
+				caseSetup[line] = "the engine first dispatched the key ~ with this table in the same keymap, then the table was replaced: " + tableField(warm)
 			}
 			classes := map[string]bool{}
 			var propEvents [][2]string
@@ -197,10 +206,35 @@ func init() {
 					if isearch {
 						lk = "isearch"
 					}
+					if warm != nil {
+						cfg.Binds[lk] = warm
+						eng.SetLocal(lk)
+						core.Stdin = &eofReader{c: [][]byte{[]byte("~")}}
+						core.WaitAvailableKeys(keys, cfg)
+						keymap.MatchLocal(eng)
+						core.FlushUsed(keys)
+						for {
+							if _, empty := core.PopKey(keys); empty {
+								break
+							}
+						}
+					}
 					cfg.Binds[lk] = tbl
 					eng.SetLocal(lk)
 					limit = 12
 				} else {
+					if warm != nil {
+						cfg.Binds[mode] = warm
+						core.Stdin = &eofReader{c: [][]byte{[]byte("~")}}
+						core.WaitAvailableKeys(keys, cfg)
+						keymap.MatchMain(eng)
+						core.FlushUsed(keys)
+						for {
+							if _, empty := core.PopKey(keys); empty {
+								break
+							}
+						}
+					}
 					cfg.Binds[mode] = tbl
 				}
 				src := &eofReader{c: chunks}
@@ -281,6 +315,9 @@ func init() {
 			class := strings.Join(cl, "+")
 			if class == "" {
 				class = "trivial"
+			}
+			if warm != nil {
+				class += "/table-replaced"
 			}
 			for _, pe := range propEvents {
 				where := "main"
